@@ -225,3 +225,134 @@ def _register2():
 
 
 _register2()
+
+
+# ---------------------------------------------------------------------------------------------- C07: the reaction factory
+class FactoryCtx(VerifContext):
+    """lines are structured strings; a 'blank' hole is an arbitrary (possibly empty) run of white space"""
+
+    def __init__(self, props=()):
+        super().__init__(props)
+        self.made = []
+        import naunet.network as nw
+        for fmt, cls in list(nw.supported_reaction_class.items()) + [("naunet", __import__("naunet.reactions.reaction", fromlist=["Reaction"]).Reaction)]:
+            self.call_contracts[f"{cls.__module__}.{cls.__qualname__}"] = (lambda ip, a, k, c=cls: (self.made.append((c, a, k)), SObj("Reaction", z3.IntVal(len(self.made))))[1])
+        self._n = 0
+
+    @staticmethod
+    def _blank_only(s):
+        from pyvc.sym import SStr, Hole
+        return isinstance(s, SStr) and all(isinstance(g, Hole) and g.kind == "blank" for g in s.segs)
+
+    def strip_string(self, interp, s, chars):
+        from pyvc.sym import SStr, Hole, Lit
+        if self._blank_only(s):
+            if chars is None:
+                return ""                      # str.strip() removes every white-space character
+            # strip(chars) / rstrip(chars) / lstrip(chars) of a run of white space: some (possibly none) of it remains
+            self._n += 1
+            if interp.branch(z3.Bool(f"blank_remainder_nonempty!{self._n}")):
+                return SStr([Hole("blank", val=z3.Int(f"blank_rest!{self._n}"), minlen=1)])
+            return ""
+        if chars is None and isinstance(s, SStr):
+            segs = [g for g in s.segs]
+            while segs and isinstance(segs[0], Hole) and segs[0].kind == "blank":
+                segs.pop(0)
+            while segs and isinstance(segs[-1], Hole) and segs[-1].kind == "blank":
+                segs.pop()
+            if segs and all(not (isinstance(g, Lit) and (g.text[:1].isspace() or g.text[-1:].isspace())) for g in (segs[0], segs[-1])):
+                return SStr(segs)
+        raise Unsupported("strip on this structured string")
+
+    def strip_side(self, interp, s, which, chars):
+        from pyvc.sym import SStr, Hole, Lit
+        if self._blank_only(s):
+            return self.strip_string(interp, s, chars) if chars is not None else ""
+        segs = list(s.segs)
+        pos = -1 if which == "rstrip" else 0
+        tail = []
+        while segs and isinstance(segs[pos], Hole) and segs[pos].kind == "blank":
+            tail.append(segs.pop(pos))
+        edge = segs[pos] if segs else None
+        if isinstance(edge, Lit) and not (edge.text[pos] in (chars if chars is not None else " \t\r\n\x0b\x0c")):
+            if chars is not None and tail:
+                self._n += 1
+                rest = Hole("blank", val=z3.Int(f"blank_rest!{self._n}"), minlen=0)      # what strip(chars) leaves of the white space
+                segs = segs + [rest] if which == "rstrip" else [rest] + segs
+            return SStr(segs)
+        raise Unsupported(f"str.{which} on this structured string")
+
+    def str_affix(self, interp, s, which, arg):
+        from pyvc.sym import SStr, Hole, Lit
+        args = arg if isinstance(arg, tuple) else (arg,)
+        if isinstance(s, SStr) and all(isinstance(a, str) and a and not a[0].isspace() and not a[-1].isspace() for a in args):
+            if self._blank_only(s):
+                return False
+            segs = list(s.segs) if which == "startswith" else list(reversed(s.segs))
+            edge = segs[0]
+            if isinstance(edge, Hole) and edge.kind == "blank" and edge.minlen >= 1:
+                return False
+            # optional white space at the edge: if present the test is false; if absent the next segment decides - the answer is
+            # known when the next segment gives false as well
+            while len(segs) > 1 and isinstance(segs[0], Hole) and segs[0].kind == "blank":
+                segs.pop(0)
+            edge = segs[0]
+            if isinstance(edge, Lit) and edge is not (s.segs[0] if which == "startswith" else s.segs[-1]):
+                t = edge.text
+                if which == "startswith" and all(t[:min(len(t), len(a))] != a[:min(len(t), len(a))] for a in args):
+                    return False
+                if which == "endswith" and all(t[-min(len(t), len(a)):] != a[-min(len(t), len(a)):] for a in args):
+                    return False
+            if isinstance(edge, Lit):
+                t = edge.text
+                if all(len(t) >= len(a) for a in args):
+                    return t.startswith(args) if which == "startswith" else t.endswith(args)
+        return super().str_affix(interp, s, which, arg)
+
+
+def entry_factory(it):
+    """_reaction_factory(line, format): a line of white space only (any mixture of blanks, tabs, carriage returns, line feeds,
+    including the empty line) yields no reaction for every format; a line with visible text is handed to the format's class
+    exactly once."""
+    import naunet.network as nw
+    from pyvc.sym import SStr, Hole, Lit
+    PP = ("C07",)
+    ctx = it.ctx
+    fmts = ["kida", "umist", "leeds", "uclchem", "krome", "naunet"]
+    which = 0
+    for k in range(1, len(fmts)):
+        if it.branch(z3.Int("format_no") == k):
+            which = k
+            break
+    fmt = fmts[which]
+    visible = it.branch(z3.Bool("line_has_visible_text"))
+    if visible:
+        line = SStr([Hole("blank", val=z3.Int("lead"), minlen=0), Lit("X"), Hole("blank", val=z3.Int("trail"), minlen=0)])
+    else:
+        line = SStr([Hole("blank", val=z3.Int("blank_line"), minlen=0)])
+    n0 = len(ctx.made)
+    try:
+        r = it.call_function(nw._reaction_factory, [line, fmt], {})
+    except PyRaise as e:
+        it.fail(f"factory/{fmt}/no-exception", PP, f"{type(e.exc).__name__}: {e.exc}")
+        return
+    it.cover("factory")
+    if visible:
+        if len(ctx.made) == n0 + 1 and isinstance(r, SObj):
+            it.prove(z3.BoolVal(True), f"factory/{fmt}/visible-line-gives-one-reaction", PP)
+        else:
+            it.fail(f"factory/{fmt}/visible-line-gives-one-reaction", PP, f"result {r!r}, {len(ctx.made) - n0} constructor calls")
+    else:
+        if r is None and len(ctx.made) == n0:
+            it.prove(z3.BoolVal(True), f"factory/{fmt}/blank-line-gives-no-reaction", PP)
+        else:
+            it.fail(f"factory/{fmt}/blank-line-gives-no-reaction", PP, f"a line of white space only reached the constructor of {fmt}: result {r!r}")
+
+
+def _register3():
+    from pyvc.units import Unit, register
+    import naunet.network as nw
+    register(Unit("reaction_factory", __name__, lambda props=(): FactoryCtx(props), entry_factory, functions=[nw._reaction_factory], props=("C07",)))
+
+
+_register3()
